@@ -169,9 +169,11 @@ CLAIMED = {
         text="Coq theorems: every call of the Memfs mirror, for every state and every argument, returns a value or an error and never the Panic "
              "outcome (step_no_panic), and the pure helpers are total (C14/C15/C19 theorems). Tied by adversarial arguments (empty, ~, $, //, 50-deep "
              "'..' chains, 2-/3-/4-byte characters at slicing offsets, 300-character names, 60-deep paths) into every Memfs method under catch_unwind, "
-             "each followed by a probe call showing the instance is still usable and its lock not poisoned. Partial: 'bounded time' is carried by "
-             "explicit fuel in the mirror (an OutOfFuel outcome would be a mismatch) and a wall-clock limit in the harness; fuel sufficiency is not "
-             "yet a theorem.",
+             "each followed by a probe call showing the instance is still usable and its lock not poisoned. 'Bounded time' is carried by "
+             "explicit fuel in the mirror: move_p and remove_all are proved to finish within 2 * entries + 2 iterations from every well-formed "
+             "state (move_op_terminates, remove_all_op_terminates), expand's scanner within the length of its input; the state after any call is "
+             "proved well formed again (usable-after). Partial: for the entries traversal (and copy / chmod / chown, which run on it) the fuel "
+             "bound is exercised (an OutOfFuel outcome would be a mismatch; wall-clock limit in the harness), not yet a theorem.",
         note="Trusted: Coq kernel; the mirror's Panic outcome marks every unwrap / index / slice of the modelled functions (hand-written, tied by "
              "the correspondence); extraction, driver, harness, differ.",
         technique="Coq proof (no Panic outcome by case analysis over every operation) + adversarial correspondence under catch_unwind",
@@ -181,11 +183,11 @@ CLAIMED = {
              "nodes, a working directory; no child lists, no separate data index). Coq theorems (Memfs/Refine.v, axiom-free): from every state "
              "reachable by ANY history of calls - reachable states are well formed (C03) and kind-sound (Memfs/Kinds.v), both proved for every "
              "call including the move / copy / traversal loops - the mirror of Memfs refines the reference for mkfile, mkdir_p / mkdir_m, "
-             "write_all, append_all, reads, remove, symlink, set_cwd and the queries: the call returns exactly the reference call's value or error kind and leaves exactly "
+             "write_all, append_all, reads, remove, remove_all (off the root), symlink, set_cwd and the queries: the call returns exactly the reference call's value or error kind and leaves exactly "
              "the reference call's tree (so a failed call leaves it as it was). move_p is specified exactly and proved in Memfs/WfMove.v (C09). "
              "The mirror is tied to the real Memfs by a model-guided BFS of every reachable state of a bounded namespace x the full call "
              "alphabet and by random histories: every call's value / error kind and the complete resulting state; 'a failed single-target call "
-             "leaves the tree as it was' is also evaluated on the implementation's pre/post snapshots. Partial: remove_all, copy, chmod and "
+             "leaves the tree as it was' is also evaluated on the implementation's pre/post snapshots. Partial: copy, chmod and "
              "chown are compared state-for-state and judged on snapshots, and proved safe (no panic, well formed, kind-sound), but their "
              "reference-level specification is not yet a theorem.",
         note="Trusted: Coq kernel; hook memfs_snapshot; extraction, driver, harness, differ.",
